@@ -3,7 +3,9 @@
 # check(s) recorded as catching it; writes seeded/REGRESSION.txt (one line per seed: caught / MISSED / patch does not apply)
 cd "$(dirname "$0")/.."
 ids=${@:-$(ls seeded | grep -E '^C[0-9]+_[0-9]+$' | sort -t_ -k1,1 -k2,2n)}
-out=seeded/REGRESSION.txt; : > $out.tmp
+out=seeded/REGRESSION.txt; tmp=$out.tmp$REGRESS_LANE; : > $tmp
+# as one lane of tools/seed_regress_par.sh: write the lines to a lane file, the wrapper merges
+if [ -n "$REGRESS_LANE" ]; then lanefile=$out.lane$REGRESS_LANE; : > $lanefile; fi
 for id in $ids; do
   pid=${id%_*}; n=${id#*_}
   checks=$(python3 -c "
@@ -16,10 +18,12 @@ print(' '.join(dict.fromkeys(c[:2])) or '$pid')")
   elif echo "$res" | grep "VIOLATION" | grep -qv "no-failing-input-found"; then st="caught ($(echo "$res" | grep VIOLATION | grep -v no-failing | sed 's/.*property=\(C[0-9]*\).*/\1/' | sort -u | tr '\n' ' '))"
   elif echo "$res" | grep -q "VIOLATION"; then st="broken tie only ($checks)"
   else st="MISSED by $checks"; fi
-  echo "$id: $st" | tee -a $out.tmp
+  echo "$id: $st" | tee -a $tmp
+  [ -n "$REGRESS_LANE" ] && echo "$id: $st" >> $lanefile
 done
+if [ -n "$REGRESS_LANE" ]; then rm -f $tmp; exit 0; fi
 # merge with the lines of seeds not re-run this time
-python3 - "$out" "$out.tmp" <<'PY'
+python3 - "$out" "$tmp" <<'PY'
 import sys,re
 old={}
 try:
@@ -29,4 +33,4 @@ for l in open(sys.argv[2]): old[l.split(":")[0]]=l
 key=lambda k: (k.split("_")[0], int(k.split("_")[1]))
 open(sys.argv[1],"w").write("".join(old[k] for k in sorted(old, key=key)))
 PY
-rm -f $out.tmp
+rm -f $tmp
